@@ -104,7 +104,10 @@ def sort(name):
 
 def klass(qual, fields=None, ghost=None, bases=(), value=False):
     name = qual.split('.')[-1]
-    ty.declare_obj(name)
+    if value:
+        ty.declare_value_class(name, fields)
+    else:
+        ty.declare_obj(name)
     c = ClassSpec(qual, {}, {}, bases, value)
     REG.classes[qual] = c
     REG.class_by_name[name] = c
@@ -125,8 +128,11 @@ def ufunc(name, argtypes, rettype):
 
 
 def axiom(name, body, vars=None):
-    """assumed fact about uninterpreted spec functions / externals: listed in trusted base"""
-    REG.axioms.append((name, {k: ty.parse_type(v) for k, v in (vars or {}).items()}, parse_expr(body), body))
+    """assumed fact about uninterpreted spec functions / externals: listed in trusted base.
+    It is added to a query only when all uninterpreted functions it mentions occur in the proof."""
+    e = parse_expr(body)
+    uses = {n.func.id for n in ast.walk(e) if isinstance(n, ast.Call) and isinstance(n.func, ast.Name) and n.func.id in REG.ufuncs}
+    REG.axioms.append((name, {k: ty.parse_type(v) for k, v in (vars or {}).items()}, e, body, uses))
 
 
 def fn(qual, **kw):
